@@ -265,6 +265,13 @@ func execRunInner(t *testing.T, rs RunSpec, keepTrace bool, res *Result) {
 			}()
 			fam.Fn(rc)
 		}()
+		// the event log ends here: during teardown tasks run freely (and concurrently), so
+		// the order of their exit records is not part of the deterministic run
+		sim.Q()
+		res.Digest = sim.Digest()
+		if keepTrace {
+			res.Trace = append([]string(nil), sim.Trace...)
+		}
 		// teardown: let everything run freely, run cleanups, wait for quiescence
 		sim.Drain()
 		for i := len(rc.cleanup) - 1; i >= 0; i-- {
@@ -281,7 +288,6 @@ func execRunInner(t *testing.T, rs RunSpec, keepTrace bool, res *Result) {
 		}
 		res.Steps = sim.Steps
 		res.SimTimeMs = time.Since(rc.Start).Milliseconds()
-		res.Digest = sim.Digest()
 		res.SchedHash = fmt.Sprintf("%016x", sim.SchedHash)
 		res.CaseHash = hashStr(append([]string{fam.Name}, rc.caseH...)...)
 		for s := range rc.states {
@@ -290,9 +296,6 @@ func execRunInner(t *testing.T, rs RunSpec, keepTrace bool, res *Result) {
 		sort.Strings(res.StateHash)
 		res.Stats = mergeStats(res.Stats, sim.StatsMap())
 		res.Stats = addStat(res.Stats, "sched.preempt", sim.Preempts)
-		if keepTrace {
-			res.Trace = sim.Trace
-		}
 		res.SpecOut = spec.Out
 		res.RunOut = run.Out
 	})
